@@ -105,6 +105,24 @@ class JTemplate:
                     pass
         return "".join(out)
 
+    def text_before(self, n) -> str:
+        """template data that precedes node n among its siblings (back to the previous control block)"""
+        ps = self.parents_of(n)
+        if not ps:
+            return ""
+        par = ps[0]
+        for fld in ("body", "else_"):
+            lst = getattr(par, fld, None)
+            if isinstance(lst, list) and any(x is n for x in lst):
+                i = next(k for k, x in enumerate(lst) if x is n)
+                out = []
+                for prev in reversed(lst[:i]):
+                    if not isinstance(prev, J.Output):
+                        break
+                    out.insert(0, "".join(c.data if isinstance(c, J.TemplateData) else "{{}}" for c in prev.nodes))
+                return "".join(out)
+        return ""
+
     def output_sequence(self, stmts) -> List[Tuple[str, object]]:
         """Flattened ('data', str) / ('expr', node) sequence of a body (control flow ignored)."""
         out = []
